@@ -66,6 +66,10 @@ let rec value_of_string (s : string) : value =
   | 'n' -> VNat (n_of_dec (String.sub s 1 (n - 1)))
   | 'b' -> VBytes (bytes_of_hex (String.sub s 1 (n - 1)))
   | 'N' -> VName (List.map comp_of_string (split_top ',' (inner 2)))
+  | 'W' -> (* every segment is followed by a comma *)
+      let parts = String.split_on_char ',' (inner 2) in
+      let parts = List.filteri (fun i _ -> i < List.length parts - 1) parts in
+      VSeq (List.map (fun h -> VBytes (bytes_of_hex h)) parts)
   | 'S' -> VStruct (List.map value_of_string (split_top ';' (inner 2)))
   | 'L' -> VSeq (List.map value_of_string (split_top ';' (inner 2)))
   | 'M' -> VMap (List.map (fun kv ->
@@ -151,6 +155,20 @@ let () =
             (* oracle (encode_length_exact): announced length = bytes produced *)
             if String.length (unhexf hex) / 2 <> int_of_string elen then
               oracle "LEN" (Printf.sprintf "announced=%s produced=%d" elen (String.length (unhexf hex) / 2))
+        | ["EW"; pi; mi; v; segs; plan] ->
+            (* nocopy models: buffer boundaries of the returned wire and Init's wirePlan *)
+            let pii = int_of_string pi in
+            let sc = schema_of pii and m = nat_of_int (int_of_string mi) in
+            let inc = inc_of (List.nth all_inc pii) in
+            let vs = fields_of (value_of_string v) in
+            let fuel = nat_of_int (depth_of (VStruct vs) + 2) in
+            let ms = encode_wire fuel sc inc m vs in
+            let mseg = String.concat "|" (List.map (fun s -> match s with WBuf b | WSlot b | WSig b -> hex_of_bytes b) ms) in
+            let mseg = if ms = [] then "-" else if mseg = "" then "|" else mseg in
+            let mplan = if ms = [] then "-" else String.concat "," (List.map dec_of_n (wire_plan fuel sc inc m vs)) in
+            bump "EW";
+            if mseg <> segs then diverge "WIRE" mseg segs;
+            if mplan <> plan then diverge "WIREPLAN" mplan plan
         | ["D"; pi; mi; ic; rd; segs; res; aux; expect; tag] ->
             let sc = schema_of (int_of_string pi) and m = nat_of_int (int_of_string mi) in
             let ss = segs_of_string segs in
